@@ -76,6 +76,48 @@ def h_sk(k, integ_id, keylen):
     return ['roundtrip', bool(ok)]
 
 
+def h_otherkey(k, integ_id):
+    """a datagram protected under one integrity key is parsed under ANOTHER key with the same Integrity/Cipher/Prf objects (the real code shares
+    one Integrity instance between both directions of an IKE_SA): it must be rejected.  Axiom: MACs under different keys differ."""
+    from symx import core, shims
+    eng = core.engine()
+    shims.HMAC_UF.injective = True
+    try:
+        m, c = MODS['message'], MODS['crypto']
+        T = m.Transform
+        cipher = c.Cipher(T(T.Type.ENCR, T.EncrId.ENCR_AES_CBC, 256))
+        integ = c.Integrity(T(T.Type.INTEG, integ_id))
+        prf = c.Prf(T(T.Type.PRF, T.PrfId.PRF_HMAC_SHA2_256))
+        hname, hs, ks = INTEG[integ_id]
+        sk_e = eng.sym_bytes('sk_e', 32)
+        sk_a1, sk_a2 = eng.sym_bytes('sk_a_sender', ks), eng.sym_bytes('sk_a_receiver', ks)
+        eng.assume(sk_a1 != sk_a2)
+        sender = c.Crypto(cipher, sk_e, integ, sk_a1, prf, b'p' * 32)
+        receiver = c.Crypto(cipher, sk_e, integ, sk_a2, prf, b'q' * 32)
+        body = eng.sym_bytes('vendor', k)
+        msg = m.Message(eng.sym_bytes('spi_i', 8), eng.sym_bytes('spi_r', 8), 2, 0, m.Message.Exchange.INFORMATIONAL, False, False, True,
+                        eng.sym_int('msg_id', 0, 0xFFFFFFFF), [], [m.PayloadVENDOR(body)], crypto=sender, iv=eng.sym_bytes('iv', 16))
+        data = msg.to_bytes()
+        # axiom (stated with the harness's own MAC terms): the truncated MACs of this datagram under the two different keys differ
+        dd = core.SymBytes.lift(data)
+        ref1 = core.SymBytes.lift(shims.SymHMAC(sk_a1, dd[:-hs], digestmod=integ.hasher).digest())[:hs]
+        ref2 = core.SymBytes.lift(shims.SymHMAC(sk_a2, dd[:-hs], digestmod=integ.hasher).digest())[:hs]
+        eng.assume(core.SymBytes.lift(ref1) != ref2)
+        # first use of the shared Integrity object is the sender's (as in an IKE_SA: own message first, then the peer's is checked)
+        try:
+            back = m.Message.parse(data, crypto=receiver)
+        except m.IkeSaError:
+            # and the same datagram still verifies under the sender's key
+            try:
+                m.Message.parse(data, crypto=sender)
+            except m.IkeSaError as ex:
+                return {'class': ['otherkey'], 'violation': f'an authentic message is rejected under its own key after the other key was used ({ex})'}
+            return ['otherkey', 'rejected']
+        return {'class': ['otherkey'], 'violation': 'a message protected under one integrity key was accepted under another key'}
+    finally:
+        shims.HMAC_UF.injective = False
+
+
 def h_tamper(k, integ_id, pos_kind):
     """a datagram whose checksum field is arbitrary: whenever the real parser accepts it, the whole truncated MAC of
     header..ciphertext equals the whole checksum field (so any change of any covered byte needs a MAC collision)"""
@@ -130,12 +172,23 @@ def build_instances(tier):
         for integ_id in (2, 12, 14):
             inst.append(Instance(f'accept-implies-MAC blocks={k} integ={integ_id}', h_tamper, (k, integ_id, 0),
                                  must_reach=[('accepted', lambda o: o[0] == 'accepted'), ('rejected', lambda o: o[0] == 'rejected')]))
+    for k in {'quick': (1, 12), 'thorough': (1, 5, 12, 28)}[tier]:
+        for integ_id in (2, 12, 14):
+            inst.append(Instance(f'other integrity key vendor_len={k} integ={integ_id}', h_otherkey, (k, integ_id), native=common.native_of(h_otherkey),
+                                 must_reach=[('rejected', lambda o: o == ['otherkey', 'rejected'])]))
     return inst
+
+
+def _load_native():
+    global MODS
+    MODS = common.load_repo(shim=False)
 
 
 def replay_file(path):
     """native replay with the real AES/HMAC: differential test of the same facts on the concrete witness"""
     global MODS
+    if 'other integrity key' in json.load(open(path)).get('instance', ''):
+        return common.generic_replay_file(path, lambda: build_instances('thorough') + build_instances('quick'), _load_native)
     MODS = common.load_repo(shim=False)
     import hmac, hashlib
     m, c = MODS['message'], MODS['crypto']
